@@ -137,6 +137,22 @@ def decOut (j : Json) : E PRes := do
   | [.str "x", .str cls] => return .raise (.user cls)
   | _ => jErr "bad out" j
 
+/-- a has-predicate reused inside its own filter: `H = has(path.<first>[P])` with
+`P(m) = tab(m) or (container(m.data) and H(m))`; the direct call `H(m)` is an evaluation of the
+same has-predicate at candidate `m` (no filter call is logged for it) -/
+def belowH (first : Step α) (tab : Pred α) : Nat → Pred α
+  | 0 => fun _ => { evs := [], res := .raise (.user "FUEL") }
+  | k+1 => im.has [first, .filter (fun n =>
+      let o := tab n
+      match o.res with
+      | .val j =>
+        if j.truthy then o
+        else if (im.cx.toJ n.data).isContainer then
+          let o' := belowH first tab k n
+          { evs := o.evs ++ o'.evs, res := o'.res }
+        else o
+      | .raise _ => o)] none []
+
 mutual
 partial def decSteps (j : Json) : E (List (Step α)) := do
   let a ← getArr j
@@ -204,6 +220,8 @@ partial def decPred (j : Json) : E (Pred α) := do
         | .ok none, "v" => { evs := evs, res := .val .null }
         | .ok none, _ => { evs := evs, res := .raise .nestedNotFound }
         | .error e, _ => { evs := evs, res := .raise e }
+  | [.str "below", first, tabp] => do
+      return belowH im (← decStep first) (← decPred tabp) 64
   | _ => jErr "bad pred" j
 end
 end
